@@ -1,5 +1,87 @@
 (** C03 - script summary roles follow from per-statement reads and writes. *)
-From SV Require Import Holder.TableLevel.
+From SV Require Import Holder.TableLevel Holder.TableProofs.
+
+(** Scripts without DROP / RENAME never fail, and their dataset graph has an edge
+    r -> w exactly when some statement reads r and writes w. *)
+Theorem c03_plain_ok : forall hs, Forall plain hs -> exists s, build hs = Ok s.
+Proof. exact build_plain_ok. Qed.
+Print Assumptions c03_plain_ok.
+
+Theorem c03_edges : forall hs s r w,
+  Forall plain hs -> build hs = Ok s -> (mem_pair (r, w) (te s) = true <-> spec_edge hs r w).
+Proof. exact build_plain_edges. Qed.
+Print Assumptions c03_edges.
+
+(** The three accessors are exactly the classification the property states. *)
+Theorem c03_roles_source : forall hs s t,
+  Forall plain hs -> Forall wf hs -> build hs = Ok s -> (is_source s t = true <-> spec_source hs t).
+Proof. exact roles_source. Qed.
+Print Assumptions c03_roles_source.
+
+Theorem c03_roles_target : forall hs s t,
+  Forall plain hs -> Forall wf hs -> build hs = Ok s -> (is_target s t = true <-> spec_target hs t).
+Proof. exact roles_target. Qed.
+Print Assumptions c03_roles_target.
+
+Theorem c03_roles_intermediate : forall hs s t,
+  Forall plain hs -> Forall wf hs -> build hs = Ok s -> (is_intermediate s t = true <-> spec_intermediate hs t).
+Proof. exact roles_intermediate. Qed.
+Print Assumptions c03_roles_intermediate.
+
+(** Statement order and repetition do not matter. *)
+Theorem c03_order_dup_invariant : forall hs hs' s s' t,
+  Forall plain hs -> Forall wf hs -> Forall plain hs' -> Forall wf hs' ->
+  (forall h, In h hs <-> In h hs') ->
+  build hs = Ok s -> build hs' = Ok s' ->
+  is_source s t = is_source s' t /\ is_target s t = is_target s' t /\
+  is_intermediate s t = is_intermediate s' t /\
+  (forall r w, mem_pair (r, w) (te s) = mem_pair (r, w) (te s')).
+Proof. exact order_dup_invariant. Qed.
+Print Assumptions c03_order_dup_invariant.
+
+(** DROP removes a dropped table iff it is present and isolated (nothing read from it,
+    nothing wired to it), and never touches edges, other tables or their tags. *)
+Theorem c03_drop : forall s h,
+  drops h <> [] ->
+  exists s', step s h = Ok s' /\
+    te s' = te (compose s h) /\
+    (forall t, ~ In t (drops h) -> mem t (tn s') = mem t (tn (compose s h)) /\
+                                   mem t (tso s') = mem t (tso s) /\ mem t (tto s') = mem t (tto s)) /\
+    (forall t, In t (drops h) ->
+       mem t (tn s') = mem t (tn (compose s h)) && negb (isolated (compose s h) t)).
+Proof. exact drop_step. Qed.
+Print Assumptions c03_drop.
+
+(** RENAME x TO y with x untagged and y fresh puts y exactly in x's place. *)
+Theorem c03_rename_single : forall s x y hn,
+  x <> y -> In x (tn s) -> ~ In y (tn s) -> NoDup (tn s) ->
+  mem x (tso s) = false -> mem x (tto s) = false ->
+  mem_pair (x, x) (te s) = false ->
+  negb (isolated s x) = true ->
+  (forall e, In e (te s) -> In (fst e) (tn s) /\ In (snd e) (tn s)) ->
+  let h := {| hnodes := hn; reads := []; writes := []; drops := []; renames := [(x, y)]; wired := [] |} in
+  (forall t, In t hn -> t = x \/ t = y) ->
+  exists s', step s h = Ok s' /\
+    (forall t, mem t (tn s') = mem t (map (rn x y) (tn s))) /\
+    (forall a b, mem_pair (a, b) (te s') = mem_pair (a, b) (map (fun e => (rn x y (fst e), rn x y (snd e))) (te s))) /\
+    mem x (tn s') = false.
+Proof. exact rename_single. Qed.
+Print Assumptions c03_rename_single.
+
+(** Non-vacuity: a three-statement script (chain + read-only statement) satisfies the hypotheses,
+    and the executable specification agrees with the model on it. *)
+Definition rw (rs : list tbl) (ws : list tbl) : astmt :=
+  {| hnodes := rs ++ ws; reads := rs; writes := ws; drops := []; renames := []; wired := rs |}.
+Example c03_nonvacuous :
+  let hs := [rw ["T:a"] ["T:b"]; rw ["T:b"; "T:c"] ["T:d"]; rw ["T:d"] []] in
+  Forall plain hs /\ Forall wf hs /\
+  show_build hs = show_spec hs /\
+  show_build hs = "S=T:a,T:c,T:d;T=T:d;I=T:b;E=T:a>T:b,T:b>T:d,T:c>T:d;N=T:a,T:b,T:c,T:d".
+Proof.
+  cbn zeta. split; [repeat constructor|]. split.
+  - repeat (apply Forall_cons; [split; cbn; intros t Ht; intuition|]). apply Forall_nil.
+  - split; reflexivity.
+Qed.
 
 (** Known finding K-C03-1: a RENAME statement with chained pairs is order dependent
     (the pairs are iterated in set order by the implementation). *)
